@@ -102,6 +102,30 @@ func vInc() opSpec {
 		func(e env) res { return mk(e.val.Set(msg(0), inc)) },
 		func(s *state) res { s.v++; return res{codes.OK, s.v} }}
 }
+
+// vAdd: a relative write the way the trait models write theirs - the interceptor adds the stored value to the
+// caller's message in place. Running it twice for one call (a retry) adds twice.
+var addOld = resource.InterceptBefore(func(old, new proto.Message) {
+	new.(*T).DefaultInt32 += old.(*T).DefaultInt32
+})
+
+func vAdd(d int) opSpec {
+	return opSpec{fmt.Sprintf("Add(%d)", d),
+		func(e env) res { return mk(e.val.Set(msg(d), addOld)) },
+		func(s *state) res { s.v += d; return res{codes.OK, s.v} }}
+}
+func cAddDelta(d int) opSpec {
+	return opSpec{fmt.Sprintf("AddDelta(%d)", d),
+		func(e env) res { return mk(e.col.Update("a", msg(d), addOld)) },
+		func(s *state) res {
+			if !s.has {
+				return res{codes.NotFound, -1}
+			}
+			s.v += d
+			return res{codes.OK, s.v}
+		}}
+}
+
 func vIncBelow(limit int) opSpec {
 	return opSpec{fmt.Sprintf("IncBelow(%d)", limit),
 		func(e env) res { return mk(e.val.Set(msg(0), below(limit), inc)) },
@@ -414,7 +438,7 @@ func main() {
 	one := func(o opSpec) []opSpec { return []opSpec{o} }
 
 	// ---- Value, 2 threads: all pairs
-	vops := []opSpec{vSet(5), vCAS(0, 7), vInc(), vIncBelow(1)}
+	vops := []opSpec{vSet(5), vCAS(0, 7), vInc(), vIncBelow(1), vAdd(1)}
 	for i := range vops {
 		for j := i; j < len(vops); j++ {
 			add(true, state{true, 0}, 2, -1, one(vops[i]), one(vops[j]))
@@ -422,6 +446,7 @@ func main() {
 	}
 	add(true, state{true, 0}, 2, 4, []opSpec{vInc(), vInc()}, []opSpec{vInc(), vInc()})
 	add(true, state{true, 0}, 2, 3, one(vInc()), one(vInc()), one(vInc()))
+	add(true, state{true, 0}, 2, 3, one(vAdd(1)), one(vSet(10)), one(vAdd(2)))
 	add(true, state{true, 0}, 2, 3, one(vCAS(0, 7)), one(vCAS(0, 8)), one(vSet(0)))
 	add(true, state{true, 0}, 2, 3, one(vIncBelow(1)), one(vIncBelow(1)), one(vIncBelow(1)))
 
@@ -435,7 +460,7 @@ func main() {
 			add(false, state{}, 2, -1, one(absentOps[i]), one(absentOps[j]))
 		}
 	}
-	presentOps := []opSpec{cAdd(9), cUpsertInc(), cInc(), cCAS(0, 7), cSet(5), cDel(), cDelAllow(), cDelExpect(0), cDelBelow(1)}
+	presentOps := []opSpec{cAdd(9), cUpsertInc(), cInc(), cCAS(0, 7), cSet(5), cDel(), cDelAllow(), cDelExpect(0), cDelBelow(1), cAddDelta(1)}
 	for i := range presentOps {
 		for j := i; j < len(presentOps); j++ {
 			add(false, state{true, 0}, 2, -1, one(presentOps[i]), one(presentOps[j]))
